@@ -109,6 +109,8 @@ type stepCase struct {
 	IOSeed  uint64    `json:"ioseed"`
 	Fill    int       `json:"fill"`   // -1 = hashed contents, else constant byte
 	IOFill  int       `json:"iofill"` // -1 = hashed port data, else constant byte
+	NilIO   bool      `json:"nil_io,omitempty"`   // emulator runs without an I/O device (IOFill must be 0)
+	MemKind int       `json:"mem_kind,omitempty"` // 0 recording bus, 1 DumbMemory, 2 MapMemory
 }
 
 // stepRig holds the reusable machinery of one worker.
@@ -117,7 +119,17 @@ type stepRig struct {
 	cpu    z80.CPU
 	retn   counter
 	reti   counter
+	// variations of the machine the emulator runs on (the model always runs on its recording bus)
+	nilIO   bool             // no I/O device attached: port writes vanish, port reads give 0
+	memKind int              // 0: recording bus, 1: the bundled DumbMemory (64 KiB), 2: the bundled MapMemory
+	dumb    z80.DumbMemory   // reused between cases; only the cells a case needs are initialised
 }
+
+const (
+	memRec = iota
+	memDumb
+	memMap
+)
 
 type counter struct{ n int }
 
@@ -142,6 +154,10 @@ type stepOutcome struct {
 // run executes one case on the emulator and on the model and compares.
 func (r *stepRig) run(c *stepCase, code []uint8) stepOutcome {
 	var o stepOutcome
+	r.nilIO, r.memKind = c.NilIO, c.MemKind
+	if c.NilIO {
+		c.IOFill = 0
+	}
 	o.pre = c.St
 	r.ib.Reset(c.MemSeed, c.IOSeed, c.Fill, c.IOFill)
 	r.mb.Reset(c.MemSeed, c.IOSeed, c.Fill, c.IOFill)
@@ -158,8 +174,40 @@ func (r *stepRig) run(c *stepCase, code []uint8) stepOutcome {
 		return o
 	}
 	r.cpu = z80.CPU{Memory: r.ib, IO: r.ib}
+	if r.nilIO {
+		r.cpu.IO = nil
+	}
+	var mm z80.MapMemory
+	switch r.memKind {
+	case memDumb:
+		// the cells the instruction is defined to touch (the model's log) get their initial contents;
+		// everything else holds leftovers of earlier cases, which a correct Step never looks at
+		if r.dumb == nil {
+			r.dumb = make(z80.DumbMemory, 65536)
+		}
+		for _, x := range r.mb.Log {
+			if x.K == bus.Read || x.K == bus.Write {
+				r.dumb[x.Addr] = r.ib.Peek(x.Addr)
+			}
+		}
+		r.cpu.Memory = r.dumb
+	case memMap:
+		mm = z80.MapMemory{}
+		for _, x := range r.mb.Log {
+			if x.K == bus.Read || x.K == bus.Write {
+				mm[x.Addr] = r.ib.Peek(x.Addr)
+			}
+		}
+		r.cpu.Memory = mm
+	}
 	r.retn.n, r.reti.n = 0, 0
-	r.cpu.RETNHandler, r.cpu.RETIHandler = &r.retn, &r.reti
+	handlers := int(c.MemSeed>>4) & 3
+	if handlers&1 == 0 {
+		r.cpu.RETNHandler = &r.retn
+	}
+	if handlers&2 == 0 {
+		r.cpu.RETIHandler = &r.reti
+	}
 	eng.ToCPU(&c.St, &r.cpu)
 	l0 := atomic.LoadInt64(&logLines)
 	if p := eng.SafeStep(&r.cpu); p != nil {
@@ -177,10 +225,49 @@ func (r *stepRig) run(c *stepCase, code []uint8) stepOutcome {
 		return o
 	}
 	o.discs = eng.StateDiff(&o.got, &o.want, &o.pre, &o.in)
-	o.discs = append(o.discs, eng.LogDiff(r.ib, r.mb)...)
-	if r.retn.n != o.in.RetN || r.reti.n != o.in.RetI {
+	switch {
+	case r.memKind != memRec:
+		// no access log: final contents of every cell the instruction is defined to touch
+		for _, x := range r.mb.Log {
+			if x.K != bus.Read && x.K != bus.Write {
+				continue
+			}
+			var g uint8
+			if r.memKind == memDumb {
+				g = r.dumb[x.Addr]
+			} else {
+				g = mm.Get(x.Addr)
+			}
+			if w := r.mb.Peek(x.Addr); g != w {
+				o.discs = append(o.discs, eng.Disc{Kind: eng.KMemImg, Msg: fmt.Sprintf("mem[%04x]=%02x want %02x (bundled memory type %d)", x.Addr, g, w, r.memKind)})
+				break
+			}
+		}
+	case r.nilIO:
+		// the device sees nothing; memory accesses must be exactly the same
+		saved := r.mb.Log
+		var memOnly []bus.Access
+		for _, x := range saved {
+			if x.K == bus.Read || x.K == bus.Write {
+				memOnly = append(memOnly, x)
+			}
+		}
+		r.mb.Log = memOnly
+		o.discs = append(o.discs, eng.LogDiff(r.ib, r.mb)...)
+		r.mb.Log = saved
+	default:
+		o.discs = append(o.discs, eng.LogDiff(r.ib, r.mb)...)
+	}
+	wantN, wantI := 0, 0
+	if handlers&1 == 0 {
+		wantN = o.in.RetN
+	}
+	if handlers&2 == 0 {
+		wantI = o.in.RetI
+	}
+	if r.retn.n != wantN || r.reti.n != wantI {
 		o.discs = append(o.discs, eng.Disc{Kind: eng.KIntr,
-			Msg: fmt.Sprintf("RETN/RETI handler calls %d/%d want %d/%d", r.retn.n, r.reti.n, o.in.RetN, o.in.RetI)})
+			Msg: fmt.Sprintf("RETN/RETI handler calls %d/%d want %d/%d (registered: RETN %v, RETI %v)", r.retn.n, r.reti.n, wantN, wantI, handlers&1 == 0, handlers&2 == 0)})
 	}
 	return o
 }
@@ -292,6 +379,7 @@ type stepDraw struct {
 	fill    int
 	ioFill  int
 	aliased bool
+	variant int
 }
 
 func drawStep(t *rapid.T, avoidPC0 bool) stepDraw {
@@ -309,6 +397,7 @@ func drawStep(t *rapid.T, avoidPC0 bool) stepDraw {
 		d.ioFill = int(g8.Draw(t, "iofill"))
 	}
 	d.aliased = applyAlias(t, &d.st, &d.ops, avoidPC0)
+	d.variant = rapid.IntRange(0, 7).Draw(t, "machine")
 	return d
 }
 
@@ -352,6 +441,15 @@ func (p *stepProp) one(d *stepDraw, ei int, t failer) {
 	e := &p.encs[ei]
 	code := e.bytes(d.ops)
 	c := stepCase{Enc: e.name, St: d.st, MemSeed: d.memSeed ^ uint64(ei)<<40, IOSeed: d.ioSeed ^ uint64(ei)<<40, Fill: d.fill, IOFill: d.ioFill}
+	// machine variation, by draw: 1/8 without I/O device, 1/8 on DumbMemory, 1/8 on MapMemory
+	switch d.variant & 7 {
+	case 1:
+		c.NilIO, c.IOFill = true, 0
+	case 2:
+		c.MemKind = memDumb
+	case 3:
+		c.MemKind = memMap
+	}
 	o := p.rig.run(&c, code)
 	p.col.Eval(1)
 	if o.skipped {
@@ -388,6 +486,14 @@ func (p *stepProp) one(d *stepDraw, ei int, t failer) {
 	}
 	if d.aliased {
 		p.col.Label("aliased")
+	}
+	switch {
+	case c.NilIO:
+		p.col.Label("machine:no-io-device")
+	case c.MemKind == memDumb:
+		p.col.Label("machine:DumbMemory")
+	case c.MemKind == memMap:
+		p.col.Label("machine:MapMemory")
 	}
 	wrapPC := uint16(c.St.PC+uint16(o.in.Len)) < c.St.PC
 	if wrapPC {
